@@ -77,6 +77,44 @@ def mc_and_replay(run, fam, maxact, invs, hosts, need=("MResolve", "MDrop", "MAb
     return len(scheds)
 
 
+CORE_INV = ["AppliedOnce", "PerTaskOrder", "NothingDeferred", "QuietWhenIdle", "ExecTasksReleased", "ReadyClosedCore"]
+
+
+def mc_core_and_replay(run, maxact, hosts, cap=None):
+    """exhaustive model checking of the core's event loop (CruxCore.tla) over small apps with follow-up
+    commands: every poll order, every order of applying queued events, every shell schedule; then every
+    terminal behaviour replayed on the real Core / Bridge and validated"""
+    path, apps = family_file(run, "apps1")
+    cfg = 'SPECIFICATION MSpec\nCONSTANT Sched = "any"\nCONSTANT KFS = {}\n'
+    cfg += "".join(f"INVARIANT {i}\n" for i in CORE_INV) + "INVARIANT EmitSched\nCHECK_DEADLOCK FALSE\n"
+    out = lib.mc(run, "MC_Core", cfg, {"APPS": path, "MAXACT": str(maxact)},
+                 need_actions=("MEvent", "MResolve", "MDrop", "MAbort", "MApply", "MReturn"),
+                 label=f"MC_Core[apps1,maxact={maxact}]")
+    scheds = lib.harvest(out)
+    if cap and len(scheds) > cap:
+        step = len(scheds) / cap
+        scheds = [scheds[int(i * step)] for i in range(cap)]
+    if not scheds:
+        raise lib.ToolError("no schedules harvested from MC_Core")
+    kfs = [f["id"] for f in lib.known_findings()["findings"]]
+    for host in hosts:
+        cp, tp = run.path(f"hc_{host}.cases"), run.path(f"hc_{host}.trace")
+        with open(cp, "w") as f:
+            for i, s in enumerate(scheds):
+                steps = [dict(st) for st in s["steps"]]
+                if host in ("bridge_bin", "bridge_json"):
+                    cutoff = next((k for k, st in enumerate(steps) if st["a"] == "drop"), len(steps))
+                    steps = steps[:cutoff]
+                app = apps[s["p"]]
+                f.write(json.dumps({"name": f"mcc-{i}", "host": host, "progs": app["progs"], "follow": app["follow"],
+                                    "steps": steps}) + "\n")
+                if i == 0:
+                    run.sample({"source": "TLC behaviour (MC_Core)", "host": host, "app": app, "steps": steps})
+        lib.run_harness(cp, tp)
+        lib.validate_trace(run, "Trace_Core", tp, kfs, label=f"replay[apps1]@{host}")
+    return len(scheds)
+
+
 def random_round(run, name, seed, n, hosts, family, depth, steps, budget=8, selftest=False, bad=0.0):
     """impl -> spec: seeded random programs and schedules beyond the exhaustive bound"""
     cp, tp = run.path(f"r_{name}.cases"), run.path(f"r_{name}.trace")
@@ -102,6 +140,18 @@ def random_round(run, name, seed, n, hosts, family, depth, steps, budget=8, self
         lib.validate_trace(run, spec, tp, kfs, label=f"random[{name}]@{'+'.join(grp)}")
         if selftest:
             lib.corrupt_selftest(run, spec, tp, kfs)
+
+
+def regress_round(run, group):
+    """inputs that once exposed a modelling error or a defect: re-executed on the current tree, then validated"""
+    src = os.path.join(lib.ROOT, "gen", "regress", f"{group}.cases")
+    if not os.path.exists(src):
+        return
+    tp = run.path(f"regress_{group}.trace")
+    lib.run_harness(src, tp)
+    spec = "Trace_Command" if group == "command" else "Trace_Core"
+    kfs = None if spec == "Trace_Command" else [f["id"] for f in lib.known_findings()["findings"]]
+    lib.validate_trace(run, spec, tp, kfs, label=f"regress[{group}]")
 
 
 def report_known(run):
@@ -177,8 +227,10 @@ def c01(run):
     run.assumptions = BASE_ASSUME
     q = run.quick
     mc_and_replay(run, "cmd1", 5 if q else 6, ["ReadyClosed"], ["core"], cap=3000 if q else 30000)
+    mc_core_and_replay(run, 3 if q else 4, ["core", "bridge_bin"], cap=1500 if q else 20000)
     random_round(run, "core", run.seed, 1200 if q else 12000, ["core", "bridge_bin", "core_legacy"], "mixed", 3, 20,
                  selftest=True)
+    regress_round(run, "core")
     report_known(run)
 
 
@@ -186,8 +238,10 @@ def c03(run):
     run.assumptions = BASE_ASSUME
     q = run.quick
     mc_and_replay(run, "scripts", 6 if q else 8, ["ReadyClosed"], ["core"], cap=3000 if q else 30000)
+    mc_core_and_replay(run, 3 if q else 4, ["core", "bridge_json"], cap=1500 if q else 20000)
     random_round(run, "events", run.seed, 1200 if q else 12000, ["core", "bridge_json"], "mixed", 2, 24,
                  selftest=True)
+    regress_round(run, "command")
     report_known(run)
 
 
